@@ -217,7 +217,7 @@ PROBE_D12 = {'batches': [{'A-MIB': {'status': 'compiled', 'oids': ['1.3.48'], 'i
 
 
 def run(ctx):
-    ctx.search('histories', histories, prop, ctx.pick(12000, 250000))
+    ctx.search('histories', histories, prop, ctx.pick(8000, 250000))
     items = small_scope()
     ctx.sweep('small-scope', items, prop)
     ctx.extra_cov['exhaustive_subdomain'] = 'small scope: %d histories (2 modules x <=2 OIDs of %r x 3 history shapes)' % (
